@@ -626,6 +626,14 @@ def run(ctx):
         if exp != inst["out"]:
             ctx.failed_obligations.append(
                 f"Lean expandItems differs from the independent expansion: {inst['line'][:300]}")
+        # a reader may stop in the middle of the last LZ77 copy (it asks for as many symbols as it
+        # needs; the copy's tokens are all consumed when the copy starts): still a valid stream
+        last = inst["items"][-1].split() if inst["items"] else []
+        if last and last[0] == "c" and int(last[2]) >= 2 and rng.random() < 0.6:
+            k = rng.randint(1, int(last[2]) - 1)
+            inst["ctxs"] = inst["ctxs"][:-k]
+            inst["out"] = inst["out"][:-k]
+            inst["desc"]["stops_inside_copy"] = True
         keep.append(inst)
         dec_lines.append(f"dec {inst['nd']} {inst['mult']} {hexs} {len(inst['ctxs'])} {' '.join(map(str, inst['ctxs']))}")
     rejected = len(insts) - len(keep)
@@ -643,6 +651,8 @@ def run(ctx):
             ctx.count("codes:explicit")
         if d.get("sweep"):
             ctx.count("special-distance-sweep")
+        if d.get("stops_inside_copy"):
+            ctx.count("reader-stops-inside-last-copy")
         ctx.case(inst["line"], len(inst["out"]) > 0)
         if len(ctx.cov["samples"]) < 4:
             ctx.sample({"enc": inst["line"][:400], "dec": dl[:200], "impl": io[:200]})
